@@ -40,7 +40,8 @@ type cliCase struct {
 
 var headerSym = map[string]string{"a": "a", "b": "b", "A": "A", "B": "B", "sp": " ", "d": "-", "e": "\xc3\x89"} // É lower-cases to é: still outside a-z
 var normSym = map[int]string{1: "_", 2: "a", 3: "b"}
-var fieldVal = map[int]string{1: "plain", 2: "say \"hi\"", 3: "a,b", 4: "two\nlines", 5: "caf\xc3\xa9 \xe6\x97\xa5", 6: ""}
+var fieldVal = map[int]string{1: "plain", 2: "say \"hi\"", 3: "a,b", 4: "two\nlines", 5: "caf\xc3\xa9 \xe6\x97\xa5", 6: "",
+	7: "bplain", 8: "aplain"} // 7, 8: column "a" + "bplain" = column "ab" + "plain"; "_" + "aplain" = "_a" + "plain"
 
 func csvQuote(s string) string {
 	if strings.ContainsAny(s, "\",\n") || s == "" {
@@ -88,12 +89,72 @@ func indexProjection(path string) (string, error) {
 	return b.String(), nil
 }
 
+// projectionOfRows: the string indexProjection must produce for an index holding exactly these rows.
+func projectionOfRows(rows []map[string]string) string {
+	colSet := map[string]map[string]bool{}
+	for _, r := range rows {
+		for c, v := range r {
+			if colSet[c] == nil {
+				colSet[c] = map[string]bool{}
+			}
+			colSet[c][v] = true
+		}
+	}
+	var cols []string
+	for c := range colSet {
+		cols = append(cols, c)
+	}
+	sort.Strings(cols)
+	sortedVals := func(c string) []string {
+		var vs []string
+		for v := range colSet[c] {
+			vs = append(vs, v)
+		}
+		sort.Strings(vs)
+		return vs
+	}
+	var b strings.Builder
+	for _, c := range cols {
+		fmt.Fprintf(&b, "col %q:", c)
+		for _, v := range sortedVals(c) {
+			n := 0
+			for _, r := range rows {
+				if rv, ok := r[c]; ok && rv == v {
+					n++
+				}
+			}
+			fmt.Fprintf(&b, " %q=%d", v, n)
+			for _, c2 := range cols {
+				for _, v2 := range sortedVals(c2) {
+					k := 0
+					for _, r := range rows {
+						if rv, ok := r[c]; ok && rv == v {
+							if rv2, ok2 := r[c2]; ok2 && rv2 == v2 {
+								k++
+							}
+						}
+					}
+					if k > 0 {
+						fmt.Fprintf(&b, "[%q:%q:%d]", c2, v2, k)
+					}
+				}
+			}
+		}
+		b.WriteString("\n")
+	}
+	if len(cols) > 0 {
+		fmt.Fprintf(&b, "total %d\n", len(rows))
+	}
+	return b.String()
+}
+
 // replay-cli (C19): every TLC-enumerated (CSV, mode, pre-existing output) through the built binary.
 func replayCLI(args []string) error {
 	fs := flag.NewFlagSet("replay-cli", flag.ExitOnError)
 	in := fs.String("in", "", "ndjson from MC_CLI")
 	bin := fs.String("updog", "", "updog binary")
 	stride := fs.Int("stride", 1, "every n-th case")
+	preSel := fs.String("pre", "any", "any | occupied (only cases whose output path is already taken)")
 	fs.Parse(args)
 	dir := vx.Scratch("replaycli")
 	defer os.RemoveAll(dir)
@@ -106,6 +167,9 @@ func replayCLI(args []string) error {
 			return err
 		}
 		if c.Tag != "cli" {
+			return nil
+		}
+		if *preSel == "occupied" && c.Pre == "absent" {
 			return nil
 		}
 		n++
@@ -143,9 +207,17 @@ func replayCLI(args []string) error {
 		os.WriteFile(csvPath, csvb.Bytes(), 0644)
 		defer os.Remove(csvPath)
 		defer os.Remove(outPath)
+		linkTarget := ""
 		switch c.Pre {
 		case "other":
-			os.WriteFile(outPath, []byte("not an index"), 0644)
+			// something that is not an index occupies the path: a junk file, or (every third case) a dangling symbolic link
+			if vrng.Intn(3) == 0 {
+				linkTarget = outPath + ".nowhere"
+				os.Symlink(linkTarget, outPath)
+				defer os.Remove(linkTarget)
+			} else {
+				os.WriteFile(outPath, []byte("not an index"), 0644)
+			}
 		case "index":
 			w := updog.NewIndexWriter(outPath)
 			w.AddRow(map[string]string{"a": "plain"})
@@ -185,7 +257,15 @@ func replayCLI(args []string) error {
 		// observed output state
 		kind := "absent"
 		proj := ""
-		if _, serr := os.Stat(outPath); serr == nil {
+		if linkTarget != "" {
+			// the link must still be there, pointing where it pointed, and its target must not have been created
+			kind = "replaced"
+			if t, lerr := os.Readlink(outPath); lerr == nil && t == linkTarget {
+				if _, terr := os.Stat(linkTarget); terr != nil {
+					kind = "other"
+				}
+			}
+		} else if _, serr := os.Stat(outPath); serr == nil {
 			kind = "other"
 			if p, perr := indexProjection(outPath); perr == nil {
 				kind, proj = "index", p
@@ -204,9 +284,8 @@ func replayCLI(args []string) error {
 				okCase = true
 				break
 			}
-			// reference index built with the library from the rows the specification prescribes
-			refPath := vx.Join(dir, fmt.Sprintf("ref%d.updog", n))
-			w := updog.NewIndexWriter(refPath)
+			// the projection the specification's rows prescribe, computed directly (no library in between)
+			var specRows []map[string]string
 			for _, raw := range a.RawRows {
 				row := map[string]string{}
 				for _, pr := range raw {
@@ -222,17 +301,9 @@ func replayCLI(args []string) error {
 					}
 					row[s] = fieldVal[val]
 				}
-				w.AddRow(row)
+				specRows = append(specRows, row)
 			}
-			if err := w.Flush(); err != nil {
-				return err
-			}
-			want, err := indexProjection(refPath)
-			os.Remove(refPath)
-			if err != nil {
-				return err
-			}
-			okCase = want == proj
+			okCase = projectionOfRows(specRows) == proj
 			break
 		}
 		// `updog schema` succeeds exactly on an index
@@ -258,6 +329,10 @@ func replayCLI(args []string) error {
 	})
 	if err != nil {
 		return err
+	}
+	if *preSel == "occupied" {
+		rep.Print()
+		return nil
 	}
 	// one large well-formed CSV through both modes: 8192 records, a column in blocks of exactly 4096
 	var big bytes.Buffer
